@@ -131,4 +131,231 @@ theorem run_mu_le : ∀ (n : Nat) (f : Fn) (s : PS), mu (run n f s) ≤ mu s := 
   | zero => intro f s; exact Nat.le_refl _
   | succ n ih => intro f s; exact execS_mu_le (run n) ih (body f) _
 
+/-! ### the abstract interpreter -/
+
+structure A where
+  pk : Bool   -- `mu` dropped, or the state is dead
+  ne : Bool   -- …, or not at the end
+  pr : Bool   -- `mu` dropped
+  nr : Bool   -- …, or `ret = false`
+  cv : Bool   -- …, or `cur = eof`
+  ok : Bool   -- every call so far was allowed
+deriving DecidableEq, Repr
+
+def A.top (a : A) : A := ⟨true, true, true, true, true, a.ok⟩
+def A.meet (a b : A) : A := ⟨a.pk && b.pk, a.ne && b.ne, a.pr && b.pr, a.nr && b.nr, a.cv && b.cv, a.ok && b.ok⟩
+def A.bad (a : A) : A := { a with ok := false }
+def A.looked (a : A) : A := { a with pk := true }
+def A.advd (a : A) : A := if a.ne then a.top else { a with pk := false, ne := false }
+def A.le (b a : A) : Bool := (!b.pk || a.pk) && (!b.ne || a.ne) && (!b.pr || a.pr) && (!b.nr || a.nr) && (!b.cv || a.cv)
+
+structure Cfg where
+  rk : Fn → Nat
+  summ : Fn → A
+  inU : Fn → Bool
+
+def abs (c : Cfg) (r : Nat) : Stmt → A → A
+  | .skip, a => a
+  | .seq x y, a => abs c r y (abs c r x a)
+  | .adv, a => a.advd
+  | .advErr _, a => a.advd
+  | .advErrDbg _, a => a.advd
+  | .err _, a => a
+  | .expect k, a => if k = T_Eof then a.bad else a.looked
+  | .eat k, a => if k = T_Eof then a.bad else { a with pk := true, nr := true }
+  | .ifAt k t e, a => if k = T_Eof then a.bad else (abs c r t a.top).meet (abs c r e a.looked)
+  | .ifAtAny ks t e, a => if ks.contains T_Eof then a.bad else (abs c r t a.top).meet (abs c r e a.looked)
+  | .ifEof t e, a => (abs c r t (if a.ne then a.top else a)).meet (abs c r e { a with ne := true })
+  | .peek, a => { a with pk := true, cv := true }
+  | .nth _, a => { a with pk := true, cv := true }
+  | .nthIdx, a => { a with pk := true, cv := true }
+  | .ifCur ks t e, a => (abs c r t (if a.cv && !ks.contains T_Eof then a.top else a)).meet (abs c r e a)
+  | .ifRet t e, a => (abs c r t (if a.nr then a.top else a)).meet (abs c r e a)
+  | .setRet b, a => { a with nr := !b }
+  | .setIdx _, a => a
+  | .incIdx, a => a
+  | .decIdx, a => a
+  | .ifIdxZero t e, a => (abs c r t a).meet (abs c r e a)
+  | .node _ b, a => abs c r b a
+  | .nodeReg b, a => abs c r b a
+  | .setKind _, a => a
+  | .markLast, a => a
+  | .wrap _ b, a => abs c r b a
+  | .call g, a =>
+      let a' : A := if a.pr then a.top else if a.pk && a.ne then c.summ g else ⟨false, false, false, false, false, true⟩
+      { a' with ok := a.ok && (c.inU g && (a.pr || decide (c.rk g < r))) }
+
+def Facts (a : A) (s : PS) : Prop :=
+  (a.pk = true → Dead s) ∧ (a.ne = true → s.isEof = false) ∧ (a.nr = true → s.ret = false) ∧ (a.cv = true → s.cur = T_Eof)
+
+def G (a : A) (s0 s : PS) : Prop := mu s ≤ mu s0 ∧ (mu s < mu s0 ∨ (a.pr = false ∧ Facts a s))
+
+theorem G_of_lt (a : A) {s0 s : PS} (h : mu s < mu s0) : G a s0 s := ⟨Nat.le_of_lt h, Or.inl h⟩
+
+theorem G_weaken {a b : A} {s0 s : PS} (h : G a s0 s) (hle : A.le b a = true) : G b s0 s := by
+  refine ⟨h.1, ?_⟩
+  rcases h.2 with h | ⟨hp, hf⟩
+  · exact Or.inl h
+  · simp only [A.le, Bool.and_eq_true, Bool.or_eq_true, Bool.not_eq_true'] at hle
+    obtain ⟨⟨⟨⟨l1, l2⟩, l3⟩, l4⟩, l5⟩ := hle
+    refine Or.inr ⟨?_, ?_, ?_, ?_, ?_⟩
+    · rcases l3 with l | l; exact l; rw [hp] at l; cases l
+    · intro hb; rcases l1 with l | l; rw [hb] at l; cases l; exact hf.1 l
+    · intro hb; rcases l2 with l | l; rw [hb] at l; cases l; exact hf.2.1 l
+    · intro hb; rcases l4 with l | l; rw [hb] at l; cases l; exact hf.2.2.1 l
+    · intro hb; rcases l5 with l | l; rw [hb] at l; cases l; exact hf.2.2.2 l
+
+theorem imp_and_l (x y : Bool) : (!(x && y) || x) = true := by cases x <;> cases y <;> rfl
+theorem imp_and_r (x y : Bool) : (!(x && y) || y) = true := by cases x <;> cases y <;> rfl
+
+theorem le_meet_left (a b : A) : A.le (a.meet b) a = true := by simp only [A.le, A.meet, imp_and_l, Bool.and_self]
+theorem le_meet_right (a b : A) : A.le (a.meet b) b = true := by simp only [A.le, A.meet, imp_and_r, Bool.and_self]
+
+theorem meet_ok {a b : A} (h : (a.meet b).ok = true) : a.ok = true ∧ b.ok = true := by
+  simpa [A.meet] using h
+
+theorem abs_ok_mono (c : Cfg) (r : Nat) : ∀ (st : Stmt) (a : A), (abs c r st a).ok = true → a.ok = true := by
+  intro st
+  induction st with
+  | seq x y ihx ihy => intro a h; exact ihx _ (ihy _ h)
+  | expect k => intro a h; simp only [abs] at h; split at h <;> simpa [A.bad, A.looked] using h
+  | eat k => intro a h; simp only [abs] at h; split at h <;> simpa [A.bad] using h
+  | ifAt k t e iht ihe =>
+    intro a h; simp only [abs] at h; split at h
+    · simp [A.bad] at h
+    · have := iht a.top (meet_ok h).1; simpa [A.top] using this
+  | ifAtAny ks t e iht ihe =>
+    intro a h; simp only [abs] at h; split at h
+    · simp [A.bad] at h
+    · have := iht a.top (meet_ok h).1; simpa [A.top] using this
+  | ifEof t e iht ihe => intro a h; have := ihe _ (meet_ok h).2; simpa using this
+  | ifCur ks t e iht ihe => intro a h; exact ihe _ (meet_ok h).2
+  | ifRet t e iht ihe => intro a h; exact ihe _ (meet_ok h).2
+  | ifIdxZero t e iht ihe => intro a h; exact ihe _ (meet_ok h).2
+  | node k b ih => intro a h; exact ih _ h
+  | nodeReg b ih => intro a h; exact ih _ h
+  | wrap k b ih => intro a h; exact ih _ h
+  | call g => intro a h; simp only [abs, Bool.and_eq_true] at h; exact h.1
+  | adv => intro a h; simp only [abs, A.advd] at h; split at h <;> simpa [A.top] using h
+  | advErr m => intro a h; simp only [abs, A.advd] at h; split at h <;> simpa [A.top] using h
+  | advErrDbg m => intro a h; simp only [abs, A.advd] at h; split at h <;> simpa [A.top] using h
+  | _ => intro a h; simpa [abs] using h
+
+/-! ### soundness -/
+
+theorem expectK_oof (s : PS) (k : Nat) : (expectK s k).oof = s.oof := by
+  unfold expectK; simp only; split
+  · exact look_oof s 0
+  · split
+    · show (look (look s 0).2 0).2.oof = _; rw [look_oof, look_oof]
+    · show (look (look s 0).2 0).2.oof = _; rw [look_oof, look_oof]
+
+theorem expectK_ret (s : PS) (k : Nat) : (expectK s k).ret = s.ret := by
+  unfold expectK; simp only; split
+  · exact look_ret s 0
+  · split
+    · show (look (look s 0).2 0).2.ret = _; rw [look_ret, look_ret]
+    · show (look (look s 0).2 0).2.ret = _; rw [look_ret, look_ret]
+
+theorem expectK_cur (s : PS) (k : Nat) : (expectK s k).cur = s.cur := by
+  unfold expectK; simp only; split
+  · exact look_cur s 0
+  · split
+    · show (look (look s 0).2 0).2.cur = _; rw [look_cur, look_cur]
+    · show (look (look s 0).2 0).2.cur = _; rw [look_cur, look_cur]
+
+theorem expectK_live (s : PS) (k : Nat) (h : ¬ Dead s) : mu (expectK s k) < mu s := by
+  unfold expectK; simp only; split
+  · exact Nat.lt_of_le_of_lt (mu_doAdvance_le _) (look_live s 0 h)
+  · split
+    · exact Nat.lt_of_le_of_lt (mu_look_le _ _) (look_live s 0 h)
+    · exact Nat.lt_of_le_of_lt (Nat.le_trans (mu_doAdvErr_le _ _) (mu_look_le _ _)) (look_live s 0 h)
+
+theorem expectK_dead (s : PS) (k : Nat) (h : Dead s) (hk : k ≠ T_Eof) :
+    Dead (expectK s k) ∧ (expectK s k).isEof = s.isEof := by
+  have h1 := look_dead s 0 h
+  have h2 := look_dead _ 0 h1.2
+  unfold expectK; simp only
+  rw [if_neg (by rw [h1.1]; exact fun e => hk e.symm), if_pos (Or.inl h2.1)]
+  exact ⟨h2.2, by show (look (look s 0).2 0).2.isEof = _; rw [look_isEof, look_isEof]⟩
+
+section sound
+variable (c : Cfg) (r : Nat) (s0 : PS) (callF : Fn → PS → PS)
+
+/-- what the soundness proof needs from calls -/
+def HC : Prop := ∀ g s, c.inU g = true → s.oof = false → mu s ≤ mu s0 → (mu s < mu s0 ∨ c.rk g < r) →
+  (callF g s).oof = false ∧ (Dead s → s.isEof = false → G (c.summ g) s (callF g s))
+
+/-- once `mu` dropped, every call is within budget -/
+theorem prog (hm : ∀ g s, mu (callF g s) ≤ mu s) (hc : HC c r s0 callF) :
+    ∀ (st : Stmt) (a : A) (s : PS), mu s < mu s0 → s.oof = false → (abs c r st a).ok = true →
+      (execS callF st s).oof = false := by
+  intro st
+  induction st with
+  | skip => intro a s _ h _; exact h
+  | seq x y ihx ihy =>
+    intro a s hl ho hk
+    exact ihy _ _ (Nat.lt_of_le_of_lt (execS_mu_le callF hm x s) hl) (ihx a s hl ho (abs_ok_mono c r y _ hk)) hk
+  | adv => intro a s _ h _; exact h
+  | err m => intro a s _ h _; exact h
+  | advErr m => intro a s _ h _; exact h
+  | advErrDbg m => intro a s _ h _; exact h
+  | expect k => intro a s _ h _; rw [execS, expectK_oof]; exact h
+  | eat k => intro a s _ h _; simp only [execS]; split <;> (show (look s 0).2.oof = false; rw [look_oof]; exact h)
+  | ifAt k t e iht ihe =>
+    intro a s hl ho hk
+    simp only [abs] at hk
+    split at hk
+    · simp [A.bad] at hk
+    · have hl' := Nat.lt_of_le_of_lt (mu_look_le s 0) hl
+      have ho' : (look s 0).2.oof = false := by rw [look_oof]; exact ho
+      simp only [execS]; split
+      · exact iht _ _ hl' ho' (meet_ok hk).1
+      · exact ihe _ _ hl' ho' (meet_ok hk).2
+  | ifAtAny ks t e iht ihe =>
+    intro a s hl ho hk
+    simp only [abs] at hk
+    split at hk
+    · simp [A.bad] at hk
+    · have hl' := Nat.lt_of_le_of_lt (mu_look_le s 0) hl
+      have ho' : (look s 0).2.oof = false := by rw [look_oof]; exact ho
+      simp only [execS]; split
+      · exact iht _ _ hl' ho' (meet_ok hk).1
+      · exact ihe _ _ hl' ho' (meet_ok hk).2
+  | ifEof t e iht ihe =>
+    intro a s hl ho hk; simp only [execS]; split
+    · exact iht _ _ hl ho (meet_ok hk).1
+    · exact ihe _ _ hl ho (meet_ok hk).2
+  | peek => intro a s _ h _; show (look s 0).2.oof = false; rw [look_oof]; exact h
+  | nth i => intro a s _ h _; show (look s i).2.oof = false; rw [look_oof]; exact h
+  | nthIdx => intro a s _ h _; show (look s s.idx).2.oof = false; rw [look_oof]; exact h
+  | ifCur ks t e iht ihe =>
+    intro a s hl ho hk; simp only [execS]; split
+    · exact iht _ _ hl ho (meet_ok hk).1
+    · exact ihe _ _ hl ho (meet_ok hk).2
+  | ifRet t e iht ihe =>
+    intro a s hl ho hk; simp only [execS]; split
+    · exact iht _ _ hl ho (meet_ok hk).1
+    · exact ihe _ _ hl ho (meet_ok hk).2
+  | setRet b => intro a s _ h _; exact h
+  | setIdx n => intro a s _ h _; exact h
+  | incIdx => intro a s _ h _; exact h
+  | decIdx => intro a s _ h _; exact h
+  | ifIdxZero t e iht ihe =>
+    intro a s hl ho hk; simp only [execS]; split
+    · exact iht _ _ hl ho (meet_ok hk).1
+    · exact ihe _ _ hl ho (meet_ok hk).2
+  | node k b ih => intro a s hl ho hk; exact ih a { s with out := [] } hl ho hk
+  | nodeReg b ih => intro a s hl ho hk; exact ih a { s with out := [] } hl ho hk
+  | setKind k => intro a s _ h _; exact h
+  | markLast => intro a s _ h _; exact h
+  | wrap k b ih => intro a s hl ho hk; exact ih a { s with out := [] } hl ho hk
+  | call g =>
+    intro a s hl ho hk
+    simp only [abs, Bool.and_eq_true] at hk
+    simp only [execS, ho, Bool.false_eq_true, if_false]
+    exact (hc g s hk.2.1 ho (Nat.le_of_lt hl) (Or.inl hl)).1
+
+end sound
+
 end Goml.Grammar
